@@ -305,6 +305,9 @@ class ParsedSubsetState(SubsetState):
             result = result[view]
         return result
 
+    def copy(self):
+        return ParsedSubsetState(self._parsed)
+
     def __gluestate__(self, context):
         return dict(parsed=context.do(self._parsed))
 
